@@ -143,3 +143,49 @@ def h_version_independent(ctx, cfg):
             nm = node.id if isinstance(node, ast.Name) else node.attr
             if nm in VERSION_DEPENDENT:
                 ctx.prove("no_version_dependent_name[__init__.py:%s]" % nm, z3.BoolVal(False))
+
+
+@harness("frame.version_gates_do_not_influence_json_and_normalize", props=["C15"], functions=["code_data._json_data.value_to_json", "code_data._json_data.code_data_from_json", "code_data._normalize.normalize"],
+         configs="all", engine="E2",
+         notes="bounded (representative values of every data class, as in json.dataclass_positions): to_json_data, from_json_data and normalize give identical results when every "
+               "version gate of the library (module-level booleans such as USE_LINETABLE / _ATLEAST_310) is flipped and sys.version_info is replaced by another supported version")
+def h_gates(ctx, cfg):
+    import importlib
+    import json
+    import sys
+    import types as _t
+    import code_data
+    import code_data._json_data as J
+    import code_data._normalize as N
+    from .c_json import _instances
+    mods = [m for name, m in sorted(sys.modules.items()) if name == "code_data" or name.startswith("code_data.")]
+    gates = [(m, k) for m in mods for k, v in vars(m).items() if isinstance(v, bool) and (k.isupper() or k.startswith("_ATLEAST"))]
+    ctx.prove("gates_found", z3.BoolVal(len(gates) >= 2), detail=repr([(m.__name__, k) for m, k in gates]))
+
+    def run():
+        out = []
+        for name, v in sorted(_instances().items()):
+            j = J.value_to_json(v)
+            out.append((name, json.dumps(j, sort_keys=True, default=repr), repr(N.normalize(v))))
+            if isinstance(v, code_data.CodeData):
+                out.append((name + ":loaded", repr(J.code_data_from_json(json.loads(json.dumps(j))))))
+        return out
+    base = run()
+    saved = [(m, k, getattr(m, k)) for m, k in gates]
+    real_vi = sys.version_info
+    try:
+        for m, k, v in saved:
+            setattr(m, k, not v)
+        for other in ((3, 7, 16, "final", 0), (3, 10, 13, "final", 0), (3, 13, 0, "final", 0)):
+            for m in mods:
+                if hasattr(m, "sys") and isinstance(getattr(m, "sys"), _t.SimpleNamespace):
+                    m.sys.version_info = other[:2]
+            flipped = run()
+            ctx.prove("same_results_with_gates_flipped_and_version_%d.%d" % other[:2], z3.BoolVal(flipped == base),
+                      detail=repr([a[0] for a, b in zip(base, flipped) if a != b][:3]))
+    finally:
+        for m, k, v in saved:
+            setattr(m, k, v)
+        for m in mods:
+            if hasattr(m, "sys") and isinstance(getattr(m, "sys"), _t.SimpleNamespace):
+                m.sys.version_info = cfg.vt
